@@ -85,6 +85,7 @@ type streamOpts struct {
 	pesLenModes  bool // unbounded (0) PES_packet_length besides exact
 	minPackets   int
 	uniquePacket bool // make every packet of a PID distinguishable (payload never equal to its predecessor's)
+	relaxedSI    bool // units on the DVB SI PIDs (not PAT/PMT) may be cut anywhere: pointer_field alone in the first packet, a packet boundary exactly at the end of a non-last section
 }
 
 func defaultStreamOpts() streamOpts {
@@ -196,6 +197,20 @@ func drawPSIUnit(t *rapid.T, pid uint16, kind int, cc *uint8, o streamOpts, fixe
 	}
 	u.payload = ref.PSIUnit(ptr, byte(rapid.SampledFrom([]int{0xff, 0x00, 0x47}).Draw(t, label+"_fill")), enc...)
 	sizes := chunking(t, len(u.payload), 1+ptr+head+1, label+"_ch")
+	if o.relaxedSI && kind >= gen.KindSDT && gen.Chance(t, 50, label+"_relaxed") {
+		// the library delimits units on these PIDs by payload_unit_start_indicator only: any cut must do
+		sizes = chunking(t, len(u.payload), 1, label+"_rch")
+		if gen.Chance(t, 60, label+"_atend") {
+			// first packet ends exactly after the pointer_field (+ filler) or after a whole number of sections
+			cut := 1 + ptr
+			for _, e := range enc[:gen.Uniform(t, len(enc), label+"_nhead")] {
+				cut += len(e)
+			}
+			if cut <= 184 && cut < len(u.payload) {
+				sizes = append([]int{cut}, chunking(t, len(u.payload)-cut, 1, label+"_rch2")...)
+			}
+		}
+	}
 	u.packets = ref.PacketizeUnit(pid, u.payload, cc, ref.PktOpts{Sizes: sizes, PadFF: gen.Bool(t, label+"_padff")})
 	fp := conv.PacketStruct(u.packets[0], true)
 	fp.Payload = nil
